@@ -204,7 +204,7 @@ func exploreAll(l *Loaded, todo []EntryOpts, rc RunConfig, workers int) []*entry
 							} else {
 								cur.noteInconclusive(fmt.Sprintf("engine crash: %v", r))
 							}
-							p.stop()
+							p.killEntry(t.entry)
 						}
 					}()
 					cur.ExploreTask(t)
@@ -351,7 +351,7 @@ func main() {
 	maxSec := fs.Int("max-seconds", 0, "wall-clock limit for the whole run (0 = none)")
 	solverLog := fs.String("solver-log", "", "prefix for SMT-LIB transcripts")
 	noReplay := fs.Bool("no-replay", false, "do not replay counterexamples natively")
-	initStd := fs.String("init-std", "errors,unicode/utf8", "std packages whose initialisers are executed")
+	initStd := fs.String("init-std", "errors,unicode/utf8,slices,maps,cmp", "std packages whose initialisers are executed (a run-time panic inside any other std package is inconclusive)")
 	seed := fs.Int64("seed", 0, "seed (recorded; exploration is deterministic)")
 	conformance := fs.Int("conformance", 0, "random concrete runs per entry executed both in the engine and natively (traces must agree)")
 	stripImports := fs.String("strip-imports", "", "blank imports dropped from the analysed copy (comma-separated)")
